@@ -180,6 +180,17 @@ class Source:
                 return hs, bo, bc
         raise Lost(f'{self.path}: impl `{target}` not found')
 
+    def find_trait(self, name):
+        """the block of `trait NAME { ... }` (attributes, visibility and supertraits ignored)"""
+        for kind, hdr, hs, bo, bc in self.top_items():
+            if kind != 'block':
+                continue
+            h = strip_attrs_comments(self, hs, bo)
+            m = re.match(r'(?:pub(?:\([^)]*\))?\s+)?(?:unsafe\s+)?trait\s+(\w+)', h)
+            if m and m.group(1) == name:
+                return hs, bo, bc
+        raise Lost(f'{self.path}: trait `{name}` not found')
+
     def find_fn(self, name, start=0, end=None):
         """Find `fn name` as a direct child item of [start,end). Returns
         (item_start, sig_start(fn kw), body_open, body_close)."""
